@@ -1106,6 +1106,10 @@ class CallMixin:
                         return self.mk("Tuple", cols, None, site)
                 return self.mk("ZipStar", (inner,), None, site)
             return self.mk("Zip", P, None, site)
+        if q == "builtins.next" and len(P) == 1 and not kw and P[0].op not in ("List", "Tuple", "Iter"):
+            # next(it) without a default on an iterator that may be exhausted (a filtered generator, ...): StopIteration
+            # may leave the calling function
+            self.effect("may-raise", site, st, fr, node=P[0], text="StopIteration")
         if q == "builtins.next" and len(P) in (1, 2) and not kw and P[0].op == "CondList":
             # first element whose filter holds, else the default
             pairs = list(zip(P[0].args[0::2], P[0].args[1::2]))
